@@ -91,6 +91,8 @@ def gen_case(rng, tier):
     # one case in four is opened over a parent (a fully allocated image of the same size): unallocated blocks
     # then read from the parent while zero blocks must still read as zeros
     c["parent_salt"] = rng.randrange(1 << 30) if rng.chance(0.25) else None
+    if c["parent_salt"] is None:
+        c["image_type"] = 2 if (c["salt"] % 3) == 0 else 1       # fixed-type images keep whatever block map they have
     return c
 
 
